@@ -1,13 +1,19 @@
 import SynapModel.Ops
 import Proofs.EngineStruct
 import Proofs.ApiLemmas
+import Proofs.EffectsSound
+import SynapModel.Generated.EffectTable
 /-!
 # C11 — Forward and backward never modify operands, targets or the caller's gradient (logical core)
 
 In the model, tensor data live in `TState.vals`.  The theorems say that the only transitions of
 the model that touch existing data are none of: applying an op, back-propagating, zeroing.
 Aliasing between NumPy arrays (views, the caller's gradient array) cannot be expressed in a
-value-level model; it is observed by byte-level snapshots in the check.
+value-level model; it is observed by byte-level snapshots in the check, and — for the NumPy kernels
+of `cpu_ops.py` / `conv_tools.py` — carried by the *effect table* at the end of this file: an
+abstract program per kernel, regenerated from the source on every run (`harness/effects.py`),
+judged by a may-alias analysis whose soundness w.r.t. a store semantics with buffer identities is
+`Proofs.Effects.safe_sound`.
 -/
 namespace Props.C11
 open Synap Synap.NDArray Synap.Api Synap.Ops Synap.Engine Proofs.Engine
@@ -140,5 +146,44 @@ theorem zeroGrad_preserves_data (st st' : TState α) (i : Nat) (h : zeroGrad st 
   split at h
   · cases h; exact ⟨rfl, rfl⟩
   · cases h
+
+/-! ### The NumPy kernels never write their operands (aliasing included)
+
+`Synap.Generated.effectTable` holds one effect program per top-level function of `cpu_ops.py` and
+`conv_tools.py` (regenerated from the source on every run).  `safe` is the verdict of the
+flow-insensitive may-alias analysis of `SynapModel/Effects.lean`: no statement that writes array
+memory in place (`x += …`, `x[i] = …`, `out=x`, `np.add.at(x, …)`, `x.fill(…)`, …) goes through a name
+that may share memory with a parameter — through views (`reshape`, `.T`, slices, `swapaxes`,
+`moveaxis`, `as_strided`, `sliding_window_view`, `np.asarray`, …), tuples, conditional expressions or
+the results of other kernels (inlined). -/
+section EffectTable
+open Synap.Effects Synap.Generated
+
+/-- **No kernel writes through a name that may alias one of its parameters.**  Regenerated from the
+    source on every run; an in-place statement on an operand (or on a view of it) makes this fail. -/
+theorem kernels_never_write_operands : ∀ k ∈ effectTable, safe k = true := by decide +kernel
+
+/-- every array-valued parameter of every kernel is protected: there is no output parameter -/
+theorem kernels_protect_every_parameter : ∀ k ∈ effectTable, allProtected k = true := by decide +kernel
+
+/-- the table is not empty, and it does contain in-place statements (on fresh arrays) to be judged -/
+theorem effecttable_nonempty :
+    90 ≤ effectTable.length ∧
+    20 ≤ (effectTable.flatMap (·.body)).countP (fun s => match s with | .write _ => true | _ => false) := by
+  decide +kernel
+
+/-- **The operands of every kernel are unchanged by the kernel.**  For every kernel of the table,
+    every entry state — the parameters bound to any existing buffers, *aliased in any way* (operands
+    that are views of one another, the caller's gradient array passed twice, …) — and every
+    execution (any order and repetition of the kernel's statements with any oracle choices, which
+    covers every path through its branches and loops), the contents of the buffer of every
+    parameter after the execution are its contents before. -/
+theorem kernel_operands_unchanged (k : Kernel) (hk : k ∈ effectTable)
+    (s0 s : State) (he : Entry k s0) (tr : Trace k.body s0 s) :
+    ∀ p b, s0.env p = some b → s.mem b = s0.mem b :=
+  Proofs.Effects.safe_sound_all k (kernels_never_write_operands k hk)
+    (kernels_protect_every_parameter k hk) s0 s he tr
+
+end EffectTable
 
 end Props.C11
